@@ -156,7 +156,12 @@ def renderListItem(item: ItemInfo, reader: io.Reader, writer: io.Writer) -> Opti
                 reader.next()
             ids = savedIds
         elif blankLines == 1:
-            if delimitedblocks.render(reader, attachedLines, ['indented', 'quote-paragraph']):
+            # The attached block may be a container (+container) whose content holds lists of its own.
+            savedIds = ids
+            ids = []
+            attached = delimitedblocks.render(reader, attachedLines, ['indented', 'quote-paragraph'])
+            ids = savedIds
+            if attached:
                 attachedDone = True
             else:
                 break
